@@ -352,14 +352,20 @@ theorem toScan_foldl (coord : Nat) (t : Int) : ∀ (items : List (Rcb.Item Int))
     simp only [List.zipIdx_cons, List.map_cons, List.foldl_cons]
     rw [ih (k + 1) _ (accWF_step t a _ h), toScan_step coord t a y k h]
 
+/-- **Along EVERY split tree the reduction is the model's sequential `scan`** – count,
+weight, distance AND index (the reduce closure of /repo f4e2819 keeps the left operand on a
+tie, `Par.parNearest_eq_foldl`). -/
+theorem scanT_eq_scan (tr : SplitTree) (items : List (Rcb.Item Int)) (coord : Nat) (t : Int) :
+    scanT tr items coord t = scan items coord t := by
+  unfold scanT
+  rw [parNearest_eq_foldl, parItems_eq, toScan_foldl coord t items 0 nearestInit (by intro _; rfl)]
+  rfl
+
 /-- With a single leaf (no split: fewer than `with_min_len(4096)` items, or one
 thread) the reduction is the model's `scan`. -/
 theorem scanT_leaf (items : List (Rcb.Item Int)) (coord : Nat) (t : Int) :
-    scanT .leaf items coord t = scan items coord t := by
-  unfold scanT parNearest
-  simp only [parFoldR, nearestMerge_init_left]
-  rw [parItems_eq, toScan_foldl coord t items 0 nearestInit (by intro _; rfl)]
-  rfl
+    scanT .leaf items coord t = scan items coord t :=
+  scanT_eq_scan .leaf items coord t
 
 /-! ## Two arrangements of the same items -/
 
